@@ -13,6 +13,7 @@
 # See the License for the specific language governing permissions and
 # limitations under the License.
 import json
+import re
 from typing import List
 
 
@@ -29,17 +30,32 @@ def get_history_cache_key(messages: List[dict]) -> str:
         return ""
 
     key_items = []
+    roles = ""
+    plain = True
 
     for msg in messages:
-        if msg["role"] == "user":
-            key_items.append(msg["content"])
-        elif msg["role"] == "assistant":
-            key_items.append(msg["content"])
-        elif msg["role"] == "context":
-            key_items.append(json.dumps(msg["content"]))
-        elif msg["role"] == "event":
-            key_items.append(json.dumps(msg["event"]))
+        role = msg["role"]
+        if role in ("user", "assistant"):
+            item = msg["content"]
+            # A plain text item must not be confusable with a separator or with a JSON item.
+            if not isinstance(item, str) or ":" in item or item[:1] in ("{", "["):
+                plain = False
+        elif role == "context":
+            item = json.dumps(msg["content"])
+            if not isinstance(msg["content"], dict):
+                plain = False
+        elif role == "event":
+            item = json.dumps(msg["event"])
+            plain = False
+        else:
+            continue
+        roles += role[0]
+        key_items.append((role, item))
 
-    history_cache_key = ":".join(key_items)
+    # The historical format ("hi:Hello!:How are you?", contexts first as JSON) is kept whenever it identifies the
+    # sequence of messages unambiguously: context messages first, then user/assistant alternating, no ":" in the texts.
+    if plain and re.fullmatch(r"c*(ua)*u?", roles):
+        return ":".join(item for _, item in key_items)
 
-    return history_cache_key
+    # Otherwise the roles and the boundaries between the messages are made part of the key.
+    return json.dumps(key_items)
